@@ -26,8 +26,8 @@
    Abstracted: memory allocation always succeeds (str::resize, Container::Resize);
    a pointer index that is 0 or beyond the current class count is Undefined when it is
    read (the fix-up in Close would index outside classpointerList unless a later
-   AddObjectAt grew it); AddObjectAt(0) is Undefined; a Listener flag byte other than 0
-   (notify/wait/var/end lists) is not modelled (Undefined); objects are flat (a body
+   AddObjectAt grew it); AddObjectAt(0) is Undefined; the sections Listener::Archive writes in
+   front of a listener's body are named by the item list as leaves (see is_listener); objects are flat (a body
    is a list of leaves: no object inside a body).  Strings are read into fresh
    (empty) destinations, so "length 0 leaves the destination untouched" reads "".
 
@@ -165,7 +165,12 @@ Definition class_name (c : N) : list N :=
   end.
 
 Definition norm_class (c : N) : N := if c <? 3 then c else 3.
-Definition is_listener (c : N) : bool := c =? 2.
+(* Listener::Archive (section-flag byte, notify / wait-for / variable / end lists) is not modelled
+   as such: what it writes in front of a VLis body are ordinary records, and the item list names
+   them as the first leaves of that body (u8 flag; per section the set header u32 u32 u32 u16 and per
+   entry the dictionary string, the u32 count and the weak pointers, or the keyed variable); the
+   generator lays them out (props/C10.py), the harness lets Listener::Archive produce / consume them. *)
+Definition is_listener (c : N) : bool := false.
 
 (* ------------------------------------------------------------------------ writer *)
 
